@@ -3,6 +3,7 @@ package main
 import (
 	"fmt"
 	"go/ast"
+	"go/token"
 	"go/types"
 	"strings"
 
@@ -27,8 +28,6 @@ func (P *Program) loopHeaderText(fn *ssa.Function, li *loopInfo) string {
 	if syn == nil {
 		return ""
 	}
-	// candidate loops: all for/range statements in the function, innermost
-	// one whose body contains the positions of the loop's blocks
 	var stmts []ast.Node
 	ast.Inspect(syn, func(n ast.Node) bool {
 		switch x := n.(type) {
@@ -38,59 +37,137 @@ func (P *Program) loopHeaderText(fn *ssa.Function, li *loopInfo) string {
 			}
 		case *ast.ForStmt, *ast.RangeStmt:
 			stmts = append(stmts, x)
-		case *ast.LabeledStmt:
-			stmts = append(stmts, x)
 		}
 		return true
 	})
-	// positions seen in loop body blocks
-	var lo, hi = -1, -1
-	for b := range li.body {
-		for _, in := range b.Instrs {
-			if p := in.Pos(); p.IsValid() {
-				if lo < 0 || int(p) < lo {
-					lo = int(p)
-				}
-				if int(p) > hi {
-					hi = int(p)
+	hdrRegion := func(s ast.Node) (token.Pos, token.Pos) {
+		switch x := s.(type) {
+		case *ast.ForStmt:
+			return x.Pos(), x.Body.Lbrace
+		case *ast.RangeStmt:
+			return x.Pos(), x.Body.Lbrace
+		}
+		return token.NoPos, token.NoPos
+	}
+	text := func(s ast.Node) string {
+		a, b := hdrRegion(s)
+		return strings.TrimSpace(strings.TrimSuffix(strings.Join(strings.Fields(P.srcText(a, b)), " "), "{"))
+	}
+	// 1. an instruction of the header block lies in the header region of a loop statement
+	var best ast.Node
+	consider := func(p token.Pos) {
+		if !p.IsValid() {
+			return
+		}
+		for _, s := range stmts {
+			a, b := hdrRegion(s)
+			if a <= p && p <= b {
+				if best == nil || (s.Pos() >= best.Pos() && s.End() <= best.End()) {
+					best = s
 				}
 			}
 		}
 	}
-	if lo < 0 {
-		return ""
-	}
-	var best ast.Node
-	for _, s := range stmts {
-		if _, isLabel := s.(*ast.LabeledStmt); isLabel {
+	for _, in := range li.header.Instrs {
+		if _, isPhi := in.(*ssa.Phi); isPhi {
 			continue
 		}
-		if int(s.Pos()) <= lo && hi <= int(s.End()) {
-			if best == nil || (s.Pos() >= best.Pos() && s.End() <= best.End()) {
-				best = s
+		if _, isDbg := in.(*ssa.DebugRef); isDbg {
+			continue
+		}
+		consider(in.Pos())
+		if v, ok := in.(*ssa.If); ok {
+			consider(v.Cond.Pos())
+		}
+	}
+	if best != nil {
+		return text(best)
+	}
+	// 2. innermost loop statement whose body contains the non-phi positions of the body blocks
+	lo, hi := token.NoPos, token.NoPos
+	for b := range li.body {
+		if b == li.header {
+			continue
+		}
+		for _, in := range b.Instrs {
+			if _, isPhi := in.(*ssa.Phi); isPhi {
+				continue
+			}
+			if _, isDbg := in.(*ssa.DebugRef); isDbg {
+				continue
+			}
+			if p := in.Pos(); p.IsValid() {
+				if !lo.IsValid() || p < lo {
+					lo = p
+				}
+				if p > hi {
+					hi = p
+				}
 			}
 		}
 	}
-	// the comment of the header block tells for.loop / rangeindex.loop etc.
-	if best != nil && strings.Contains(li.header.Comment, "loop") || best != nil && strings.Contains(li.header.Comment, "for.") || best != nil && strings.Contains(li.header.Comment, "range") {
-		switch x := best.(type) {
-		case *ast.ForStmt:
-			return strings.TrimSpace(strings.TrimSuffix(strings.Join(strings.Fields(P.srcText(x.Pos(), x.Body.Lbrace)), " "), "{"))
-		case *ast.RangeStmt:
-			return strings.TrimSpace(strings.Join(strings.Fields(P.srcText(x.Pos(), x.Body.Lbrace)), " "))
+	if lo.IsValid() {
+		for _, s := range stmts {
+			if s.Pos() <= lo && hi <= s.End() {
+				if best == nil || (s.Pos() >= best.Pos() && s.End() <= best.End()) {
+					best = s
+				}
+			}
 		}
 	}
-	// label-based loop (goto)
+	if best != nil && !strings.HasPrefix(li.header.Comment, "label") && (strings.Contains(li.header.Comment, "for") || strings.Contains(li.header.Comment, "range")) {
+		return text(best)
+	}
+	// goto loop: named by its label
 	if li.header.Comment != "" {
 		return "label " + li.header.Comment
 	}
 	return ""
 }
 
-
-// verifyFunction builds all obligations of one function.
+// verifyFunction builds all obligations of one function (after inferring
+// simple loop invariants).
 func verifyFunction(P *Program, U *Universe, fn *ssa.Function, props []string) *Enc {
+	kept := map[loopKey][]*Clause{}
+	if hasLoops(P, fn, 0, map[*ssa.Function]bool{}) {
+		kept = inferInvariants(P, U, fn, P.OutDir+"/houdini", 0)
+	}
 	e := newEnc(P, U, fn)
+	e.keptInv = kept
+	runEncoding(e, fn, props)
+	return e
+}
+
+func hasLoops(P *Program, fn *ssa.Function, depth int, seen map[*ssa.Function]bool) bool {
+	if seen[fn] || depth > maxInlineDepth {
+		return false
+	}
+	seen[fn] = true
+	loops, _, _ := computeLoops(fn)
+	if len(loops) > 0 {
+		return true
+	}
+	for _, b := range fn.Blocks {
+		for _, in := range b.Instrs {
+			if c, ok := in.(ssa.CallInstruction); ok {
+				if callee := c.Common().StaticCallee(); callee != nil && P.Funcs[funcKey(callee)] == callee {
+					if hasLoops(P, callee, depth+1, seen) {
+						return true
+					}
+				}
+			}
+			if mc, ok := in.(*ssa.MakeClosure); ok {
+				if hasLoops(P, mc.Fn.(*ssa.Function), depth+1, seen) {
+					return true
+				}
+			}
+		}
+	}
+	return false
+}
+
+func runEncoding(e *Enc, fn *ssa.Function, props []string) {
+	P := e.P
 	defer func() {
 		if r := recover(); r != nil {
 			e.fail("internal error: %v", r)
@@ -107,6 +184,7 @@ func verifyFunction(P *Program, U *Universe, fn *ssa.Function, props []string) *
 	a0 := e.declare("alloc0", SInt)
 	e.assume(ge(a0, intLit(1)), a0.S)
 	st.alloc = a0
+	f.entryPtr = st
 	// parameters
 	for _, p := range fn.Params {
 		t := e.declare("p."+p.Name(), e.sortOf(p.Type()))
@@ -162,7 +240,7 @@ func verifyFunction(P *Program, U *Universe, fn *ssa.Function, props []string) *
 	e.oldState = st.clone()
 	f.run(reach, st)
 	if e.unsupported != "" {
-		return e
+		return
 	}
 	// ensures at every return
 	for i, r := range f.rets {
@@ -180,6 +258,34 @@ func verifyFunction(P *Program, U *Universe, fn *ssa.Function, props []string) *
 					name = fmt.Sprintf("%s @return%d", en.Name, i+1)
 				}
 				e.addOblig("ensures", name, en.Props, P.position(r.instr.Pos()), r.reach, t)
+			}
+		}
+	}
+	// mutators restore the type invariants of their pointer parameters
+	for i, r := range f.rets {
+		for _, p := range fn.Params {
+			_, stT, ok := isStructPtr(p.Type())
+			if !ok {
+				continue
+			}
+			n, isNamed := stT.(*types.Named)
+			if !isNamed || n.Obj().Pkg() == nil {
+				continue
+			}
+			key := n.Obj().Pkg().Name() + "." + n.Obj().Name()
+			if !P.isMutator(fn, key) {
+				continue
+			}
+			for _, inv := range P.Specs.TypeInvs[key] {
+				env := &SpecEnv{f: f, names: map[string]Term{"self": f.vals[p]}, types: map[string]types.Type{"self": p.Type()}, cur: r.state, old: e.oldState, pkg: n.Obj().Pkg()}
+				f.noInv = true
+				t, err := env.evalBool(inv.Expr)
+				f.noInv = false
+				if err != nil {
+					e.specError("wf %s: %v", key, err)
+					continue
+				}
+				e.addOblig("wf", fmt.Sprintf("%s restored for %s: %s @return%d", key, p.Name(), inv.Text, i+1), f.props, P.position(r.instr.Pos()), r.reach, t)
 			}
 		}
 	}
@@ -219,5 +325,4 @@ func verifyFunction(P *Program, U *Universe, fn *ssa.Function, props []string) *
 			}
 		}
 	}
-	return e
 }
